@@ -2,10 +2,10 @@
 package main
 
 import (
-	"math"
 	"fmt"
 	"go/token"
 	"go/types"
+	"math"
 	"regexp"
 	"strings"
 
@@ -802,7 +802,7 @@ func ruleReadBound(c *Ctx, r *Rep, tier string) {
 		} else {
 			ub := upperBounds(sl.High, 0)
 			need := map[string]string{
-				pAtom("$0.Record.endOfLineOffset($0.cur)").canon():                                         "the bases left on the cursor's line (or the terminator bytes are returned as bases)",
+				pAtom("$0.Record.endOfLineOffset($0.cur)").canon():                                       "the bases left on the cursor's line (or the terminator bytes are returned as bases)",
 				pAtom("len(" + symKey(sl.X) + ")").canon():                                               "the caller's buffer",
 				pAtom("$0.Record.position($0.end)").add(pAtom("$0.Record.position($0.cur)"), -1).canon(): "the bytes up to the end of the requested range",
 			}
